@@ -158,6 +158,13 @@ def main() -> int:
 
     # ---------------------------------------------------------------- 1-3 translate / build / audit
     lean_modules = list(getattr(P, "LEAN_MODULES", []))
+    # T1c (DESIGN §17): modules proving `translated source = hand model`.  They are an ADDITIONAL tie on top
+    # of the correspondence: when one no longer builds (the function was rewritten — harmlessly or not) the
+    # property theorems still hold of the model and the model is still tied to the code by the correspondence
+    # of this run, so a lost tie is not a violation by itself; it forces the failing-input search (larger
+    # stream) and is recorded in the evidence.
+    tie_modules = list(getattr(P, "TIE_MODULES", []))
+    tie_lost = None
     driver_name = getattr(P, "DRIVER", None)
     axioms = {}
     theorems = []
@@ -196,6 +203,17 @@ def main() -> int:
                       except Exception:
                           pass
           audit_modules = lean_modules if proof_broken is None else list((triage or {}).get("modules_ok", []))
+          for tm in tie_modules:
+              try:
+                  ok, log = C.lake_build([tm])
+              except Exception as e:
+                  print("ERROR: lake build could not run:", e)
+                  return 2
+              if ok:
+                  audit_modules = audit_modules + [tm]
+              else:
+                  tie_lost = (tie_lost or "") + f"{tm} no longer builds (translated source != hand model, or not translatable):\n" + "\n".join(
+                      l for l in log.splitlines() if not l.startswith("✔") and "Built" not in l)[-1500:] + "\n"
 
           def _broken(msg):
               # with a triaged build failure the build text is kept and the new problem is unexplained
@@ -222,13 +240,13 @@ def main() -> int:
                   proof_broken = _broken(f"theorems depend on non-standard axioms: {bad}")
               elif unseen:
                   proof_broken = _broken(f"axiom audit did not report on {unseen}:\n{alog[-2000:]}")
-              forbidden = C.grep_forbidden(lean_modules + (["Drivers." + driver_name[4:]] if driver_name and driver_name.startswith("drv_") else []))
+              forbidden = C.grep_forbidden(lean_modules + [m for m in tie_modules if m in audit_modules] + (["Drivers." + driver_name[4:]] if driver_name and driver_name.startswith("drv_") else []))
               if forbidden:
                   proof_broken = _broken(f"forbidden tokens in Lean sources: {forbidden}")
               if tier == "thorough" and proof_broken is None and lean_modules:
                   # independent re-check of the compiled property modules by leanchecker
                   try:
-                      ok, log = C.leanchecker(lean_modules)
+                      ok, log = C.leanchecker(lean_modules + [m for m in tie_modules if m in audit_modules])
                       rechecked = ok
                       if not ok:
                           proof_broken = "leanchecker rejected the compiled property modules:\n" + log[-2000:]
@@ -263,7 +281,9 @@ def main() -> int:
 
     disagreements = _live_diffs(records)
     searched = 0
-    if (proof_broken or disagreements):
+    if tie_lost:
+        notes.append("T1c tie lost (not a violation by itself; failing-input search forced): " + tie_lost[:600])
+    if (proof_broken or disagreements or tie_lost):
         # failing-input search (DESIGN §2.2): bigger budget, oracle on the implementation
         rng2 = random.Random(seed * 7919 + 5)
         extra = list(P.search(rng2, budget(P, tier, True)) if hasattr(P, "search") else P.generate(rng2, budget(P, tier, True), "search"))
@@ -356,7 +376,7 @@ def main() -> int:
         "coverage": {
             "obligations": max(len(theorems) + len((triage or {}).get("modules_broken_theorems", [])), 1),
             "discharged": discharged,
-            "checker_cmd": f"cd lean && lake build {' '.join(lean_modules)} && lake env lean .lake/audit/{pid}.lean  (#print axioms)",
+            "checker_cmd": f"cd lean && lake build {' '.join(lean_modules + tie_modules)} && lake env lean .lake/audit/{pid}.lean  (#print axioms)",
             "trusted_base": list(getattr(P, "TRUSTED", [])) + [
                 "Lean 4.33 kernel; Mathlib v4.33 as compiled in /opt/veriftools/mathlib4",
                 "axioms ⊆ {propext, Classical.choice, Quot.sound} (audited per theorem, this run)",
@@ -382,6 +402,7 @@ def main() -> int:
             "known_findings_seen": sorted(known_hits.keys()),
             "notes": notes,
             "proof_broken": proof_broken,
+            "code_tie_lost": tie_lost,
             "exhaustive": False,
         },
         "assumptions": list(getattr(P, "ASSUMPTIONS", [])),
